@@ -425,6 +425,28 @@ def r6_doc_sync(c, facts):
         c.ok(R, {'Workspace::close': 'docs.remove(loc): the next load reads the saved file'})
     else:
         c.bad(R, 'close-does-not-forget', 'Workspace::close no longer removes the document: the closed (unsaved) buffer keeps shadowing the file on disk')
+    # who may change the table of texts: open stores the client's text, change edits it, close forgets it, read_file adds
+    # what it read from disk - a text the client still has open belongs to the client until didClose
+    OWNERS = {'open', 'change', 'close', 'read_file'}
+    for f in sorted(facts.fns.values(), key=lambda f: f.qname):
+        if not f.mir or not f.qname.startswith('oal_client::lsp::'):
+            continue
+        idxf = MF.defs_index(f)
+        for b, t in f.calls():
+            info = callee_of(t)
+            a0 = t['args'][0] if t['args'] else None
+            if not info or not a0 or 'l' not in a0:
+                continue
+            api = P.strip(info['def']).split('::')[-1]
+            if api not in ('insert', 'remove', 'retain', 'clear', 'drain', 'get_mut', 'entry', 'extend', 'remove_entry', 'iter_mut', 'values_mut'):
+                continue
+            for kind, bi, x in idxf.get(a0['l'], []):
+                if kind == 'assign' and x['rv']['r'] == 'ref' and MF.field_path(x['rv']['place'])[:1] == ['docs'] and 'Workspace' in (f.mir['locals'][x['rv']['place']['l']].get('ty', '') if x['rv']['place']['l'] < len(f.mir['locals']) else ''):
+                    home = facts.home(f).qname.split('::{closure')[0].split('::')[-1]
+                    if home in OWNERS:
+                        c.ok(R, {'docs': api, 'by': home})
+                    else:
+                        c.bad(R, 'docs-changed-by:%s:%s' % (home, api), 'Workspace::%s changes the table of document texts (%s): a text the client still has open is dropped or altered behind its back, and the server goes on with the file on disk' % (home, api))
     # every per-document table of the workspace follows the document: what any method files under a locator (a text, a
     # version, a line index, a parse) is dropped by didClose with the text - or it outlives the text it was derived from
     ws = facts.adt('oal_client::lsp::Workspace')
